@@ -15,6 +15,7 @@ import ast
 
 from sa import mutate as M
 from sa import pattern as PT
+from sa import values as VX
 from sa.ctx import Ctx
 from sa.loader import AnalysisError, call_name, norm, own_nodes, parent
 from sa.ranges import has, has_bound, refusal_constraints
@@ -155,12 +156,14 @@ def rule_shapes(ctx: Ctx, rep: Report) -> None:
     rep.ob(rule, "verifier:internal_key_slice", pb is not None and tw is not None, co.where(pb), "internal key = control[1:33], and it is what the tweak commits to")
     pv = ctx.func(f"{T}._tweaked_prvkey")
     txt = PT.text(pv)
-    rep.ob(rule, "prvkey:negated_iff_odd_y", "has_even_y = P[1] % 2 == 0" in txt and "internal_prvkey if has_even_y else secp256k1.n - internal_prvkey" in txt, pv.where(), "d := n - d exactly when the public point has odd y")
-    rep.ob(rule, "prvkey:sum_mod_n", "(internal_prvkey + t) % secp256k1.n" in txt, pv.where(), "(d + t) mod n")
+    vx = VX.of(pv)
+    rep.ob(rule, "prvkey:negated_iff_odd_y", vx.anywhere("secp256k1.n - internal_prvkey if mult(internal_prvkey)[1] % 2 else internal_prvkey"), pv.where(), "d := n - d exactly when the public point has odd y")
+    rep.ob(rule, "prvkey:sum_mod_n", vx.anywhere("($$d + $$t) % secp256k1.n"), pv.where(), "(d + t) mod n")
     pk = ctx.func(f"{T}._tweaked_pubkey")
     txt = PT.text(pk)
-    rep.ob(rule, "pubkey:even_y_lift", "y_P if y_P % 2 == 0 else secp256k1.p - y_P" in txt, pk.where(), "the internal key is lifted to even y")
-    rep.ob(rule, "pubkey:returns_parity", "Q[1] % 2" in txt, pk.where(), "the output key's parity is returned")
+    vx = VX.of(pk)
+    rep.ob(rule, "pubkey:even_y_lift", vx.anywhere("($$x, secp256k1.p - $$y if $$y % 2 else $$y)"), pk.where(), "the internal key is lifted to even y")
+    rep.ob(rule, "pubkey:returns_parity", vx.returns("$$Q[1] % 2"), pk.where(), "the output key's parity is returned")
     rep.ob(rule, "pubkey:x_only_internal", "pub_key.sec[1:33]" in txt, pk.where(), "the tweak commits to the 32-byte x of the internal key")
 
 
